@@ -1,8 +1,198 @@
+//! C20 — SetSketch parameters survive a dump/reload and a torn file is reported (fault enumeration)
 use crate::common::*;
+use probminhash::setsketcher::SetSketchParams;
+use rand::Rng as _;
+use rand::RngCore;
+use serde_json::{json, Value};
+use std::path::{Path, PathBuf};
+
+fn scratch(tag: &str) -> PathBuf {
+    let base = std::env::var("PMHV_VERIF_DIR").unwrap_or("/verif".into());
+    let d = Path::new(&base).join("target").join("tmp").join(format!("c20-{}-{}", std::process::id(), tag));
+    let _ = std::fs::remove_dir_all(&d);
+    std::fs::create_dir_all(&d).expect("cannot create scratch directory");
+    d
+}
+
+/// number of significant decimal digits of the shortest round-trip representation
+fn sig_digits(x: f64) -> usize {
+    let s = format!("{:e}", x);
+    let mant = s.split('e').next().unwrap_or("");
+    mant.chars().filter(|c| c.is_ascii_digit()).collect::<String>().trim_start_matches('0').trim_end_matches('0').len().max(1)
+}
+
+/// |x - y| <= one unit in the last place of x (the gap between x and the next larger double)
+fn within_one_ulp(x: f64, y: f64) -> bool {
+    if !x.is_finite() || !y.is_finite() {
+        return false;
+    }
+    let up = f64::from_bits(x.abs().to_bits() + 1);
+    let ulp = up - x.abs();
+    (x - y).abs() <= ulp
+}
+
+fn gen_params(rng: &mut Rng, i: u64) -> (f64, u64, f64, u64) {
+    let ints: [u64; 12] = [0, 1, 2, 4096, 65534, 65535, (1 << 32) - 1, 1 << 32, (1 << 32) + 1, (1 << 53) + 1, u64::MAX - 1, u64::MAX];
+    let m = if i % 3 == 0 { ints[rng.random_range(0..ints.len())] } else { rng.next_u64() >> rng.random_range(0..64) };
+    let q = if i % 4 == 0 { ints[rng.random_range(0..ints.len())] } else { rng.next_u64() >> rng.random_range(0..64) };
+    let fl = |rng: &mut Rng, k: u64| -> f64 {
+        match k % 8 {
+            0 => [1.001, 1.1, 1.5, 2.0, 20., 0.5, 1.0001, 1e-3][rng.random_range(0..8)],
+            1 => 1. + rng.random::<f64>(), // 16-17 significant digits
+            2 => f64::from_bits(1f64.to_bits() + rng.random_range(1..5)), // next to 1
+            3 => f64::from_bits(2f64.to_bits() - rng.random_range(0..5)), // next to 2
+            4 => 2f64.powi(rng.random_range(-60..60)),
+            5 => (rng.random_range(1..1_000_000u64) as f64) / 1000., // short decimals
+            6 => f64::from_bits(rng.next_u64() & 0x7fef_ffff_ffff_ffff).max(f64::MIN_POSITIVE), // any positive finite
+            _ => 10f64.powf(rng.random_range(-300.0..300.0)),
+        }
+    };
+    let b = fl(rng, i);
+    let a = fl(rng, i / 8 + 3);
+    (b, m, a, q)
+}
+
+fn reload_outcome(dir: &Path) -> Result<Result<(f64, u64, f64, u64), String>, String> {
+    let d = dir.to_path_buf();
+    catch(move || SetSketchParams::reload_json(&d).map(|p| (p.get_b(), p.get_m(), p.get_a(), p.get_q())))
+}
 
 pub fn run(rep: &mut Report) {
-    let _ = rep;
-    eprintln!("C20 not implemented yet");
+    quiet_panics();
+    rep.level = "fault_enumeration";
+    rep.rule = "parameter tuples (b, m, a, q): m, q over {0,1,2^32±1,2^53+1,u64::MAX,...} and random widths; a, b from short decimals, 17 digit decimals, neighbours of 1 and 2, powers of two, arbitrary positive finite doubles. For each tuple: dump_json + reload_json must return m, q exactly and a, b exactly (<= 15 significant digits) or within 1 ulp; then EVERY proper prefix (0..len-1 bytes) of the written file is put in its place and reload_json is called under catch_unwind: it must return Err (Ok(..) or a panic is a violation); a missing file must give Err. Thorough adds real crashes: strace kills the dumping process inside its write to parameters.json and a fresh process reloads (tool leg). Distinct = distinct (tuple, cut offset) files reloaded; non-trivial: all".into();
+    let ntuples: u64 = rep.tier.pick(300, 6000);
+    let seed = subseed(rep.seed, "C20", &[]);
+    let mut rng = rng_from(seed);
+    let dir = scratch("main");
+    let file = dir.join("parameters.json");
+    let mut nprefix = 0u64;
+    let mut exhaustive_files = 0u64;
+    // missing file
+    {
+        let empty = scratch("missing");
+        match reload_outcome(&empty) {
+            Ok(Err(_)) => {}
+            Ok(Ok(p)) => rep.violation("C20/missing-file-accepted", "missing", format!("reload_json on a directory without parameters.json returned {:?}", p), json!({})),
+            Err(msg) => rep.violation("C20/missing-file-panics", "missing", format!("reload_json on a directory without parameters.json aborts: {}", msg), json!({})),
+        }
+        rep.evaluations += 1;
+        let _ = std::fs::remove_dir_all(&empty);
+    }
+    for i in 0..ntuples {
+        let cell = format!("tuple{}", i);
+        let (b, m, a, q) = gen_params(&mut rng, i);
+        if !rep.want(&cell) {
+            continue;
+        }
+        let case = json!({"b": format!("{:e}", b), "m": m, "a": format!("{:e}", a), "q": q});
+        let p = SetSketchParams::new(b, m, a, q);
+        let _ = std::fs::remove_file(&file);
+        let d2 = dir.clone();
+        match catch(move || p.dump_json(&d2)) {
+            Ok(Ok(())) => {}
+            other => {
+                rep.violation("C20/dump-failed", &cell, format!("dump_json failed on a writable directory: {:?}", other), case.clone());
+                continue;
+            }
+        }
+        let bytes = std::fs::read(&file).unwrap_or_default();
+        rep.evaluations += 1;
+        if i < 3 {
+            rep.sample(json!({"params": case, "file": String::from_utf8_lossy(&bytes)}));
+        }
+        // ---- round trip
+        match reload_outcome(&dir) {
+            Ok(Ok((b2, m2, a2, q2))) => {
+                let okf = |x: f64, y: f64| x.to_bits() == y.to_bits() || (sig_digits(x) > 15 && within_one_ulp(x, y));
+                if m2 != m || q2 != q || !okf(b, b2) || !okf(a, a2) {
+                    rep.violation("C20/round-trip", &cell, format!("dump then reload returned (b={:e}, m={}, a={:e}, q={}) for (b={:e}, m={}, a={:e}, q={})", b2, m2, a2, q2, b, m, a, q), case.clone());
+                }
+            }
+            Ok(Err(e)) => rep.violation("C20/round-trip", &cell, format!("reload of an intact dump failed: {}", e), case.clone()),
+            Err(msg) => rep.violation("C20/round-trip", &cell, format!("reload of an intact dump aborts: {}", msg), case.clone()),
+        }
+        // ---- every proper prefix as the crash point
+        let mut bad_ok = None;
+        let mut bad_panic = None;
+        for cut in 0..bytes.len() {
+            std::fs::write(&file, &bytes[..cut]).unwrap();
+            nprefix += 1;
+            rep.distinct.insert(mix(&[i, cut as u64]));
+            match reload_outcome(&dir) {
+                Ok(Err(_)) => {}
+                Ok(Ok(p2)) => {
+                    if bad_ok.is_none() {
+                        bad_ok = Some((cut, p2));
+                    }
+                }
+                Err(msg) => {
+                    if bad_panic.is_none() {
+                        bad_panic = Some((cut, msg));
+                    }
+                }
+            }
+        }
+        exhaustive_files += 1;
+        if let Some((cut, p2)) = bad_ok {
+            rep.violation("C20/torn-file-accepted", &cell, format!("file cut after {} of {} bytes is accepted and yields parameters {:?}", cut, bytes.len(), p2), json!({"params": case, "cut": cut, "file": String::from_utf8_lossy(&bytes)}));
+        }
+        if let Some((cut, msg)) = bad_panic {
+            rep.violation("C20/torn-file-panics", &cell, format!("file cut after {} of {} bytes: reload_json aborts instead of returning Err: {}", cut, bytes.len(), msg), json!({"params": case, "cut": cut, "file": String::from_utf8_lossy(&bytes)}));
+        }
+        // ---- other damage: trailing garbage must not change the parameters silently (Err or same parameters)
+        let mut longer = bytes.clone();
+        longer.extend_from_slice(b"{\"b\":3");
+        std::fs::write(&file, &longer).unwrap();
+        nprefix += 1;
+        match reload_outcome(&dir) {
+            Ok(Ok((b2, m2, _, q2))) if b2.to_bits() != b.to_bits() || m2 != m || q2 != q => rep.violation("C20/torn-file-accepted", &cell, "a dump followed by the beginning of a second dump yields different parameters".into(), case.clone()),
+            Err(msg) => rep.violation("C20/torn-file-panics", &cell, format!("dump followed by a partial second dump: reload_json aborts: {}", msg), case.clone()),
+            _ => {}
+        }
+    }
+    rep.evaluations += nprefix;
+    rep.count("files_with_every_prefix_enumerated", exhaustive_files);
+    rep.count("torn_files_reloaded", nprefix);
+    rep.exhaustive = Some(false);
+    rep.extra.insert("exhaustive_note".into(), json!("every byte prefix of every dumped file is enumerated (exhaustive per file); the parameter tuples themselves are sampled"));
+    let _ = std::fs::remove_dir_all(&dir);
+    rep.assumptions.push("a crash during dump_json leaves a prefix of the file: the file is written through one BufWriter in a truncating open".into());
 }
-pub fn child_dump(_a: &[String]) -> i32 { 2 }
-pub fn child_reload(_a: &[String]) -> i32 { 2 }
+
+/// child: dump the given parameters into a directory (used under strace fault injection)
+pub fn child_dump(a: &[String]) -> i32 {
+    if a.len() < 5 {
+        return 2;
+    }
+    let dir = PathBuf::from(&a[0]);
+    let b: f64 = a[1].parse().unwrap_or(1.001);
+    let m: u64 = a[2].parse().unwrap_or(4096);
+    let av: f64 = a[3].parse().unwrap_or(20.);
+    let q: u64 = a[4].parse().unwrap_or(65534);
+    match SetSketchParams::new(b, m, av, q).dump_json(&dir) {
+        Ok(()) => {
+            println!("DUMP OK");
+            0
+        }
+        Err(e) => {
+            println!("DUMP ERR {}", e);
+            1
+        }
+    }
+}
+
+/// child: reload from a directory and print the outcome
+pub fn child_reload(a: &[String]) -> i32 {
+    quiet_panics();
+    if a.is_empty() {
+        return 2;
+    }
+    let dir = PathBuf::from(&a[0]);
+    match reload_outcome(&dir) {
+        Ok(Ok((b, m, av, q))) => println!("RELOAD OK {:e} {} {:e} {}", b, m, av, q),
+        Ok(Err(e)) => println!("RELOAD ERR {}", e),
+        Err(msg) => println!("RELOAD PANIC {}", msg.replace('\n', " ")),
+    }
+    0
+}
